@@ -42,16 +42,64 @@ def pool_modules():
     return mods
 
 
+class ChoiceSpyRS(SpyRS):
+    """Additionally records, for every outermost `choice(…, p=…)` call, the weight vector and the uniform numbers
+    numpy draws inside it (`choice` calls `self.random_sample`, which resolves to the override below)."""
+
+    def __init__(self, seed):
+        super().__init__(seed)
+        self.choice_calls = []
+        self._cur = None
+
+    def random_sample(self, size=None):
+        r = super().random_sample(size)
+        if self._cur is not None:
+            self._cur["inner"].append(np.array(r, dtype=float).ravel().copy())
+        return r
+
+    def choice(self, a, size=None, replace=True, p=None):
+        outer = self._cur is None and self._depth == 0
+        if outer:
+            self._cur = dict(a=np.array(a).copy(), size=size, replace=replace, p=None if p is None else np.array(p, dtype=float).copy(), inner=[])
+        try:
+            r = super().choice(a, size=size, replace=replace, p=p)
+        finally:
+            cur, self._cur = (self._cur, None) if outer else (None, self._cur)
+        if outer:
+            cur["out"] = np.array(r).copy()
+            self.choice_calls.append(cur)
+        return r
+
+
 class SimpleBatchSpy:
     """Replaces `simple_batch` in every skactiveml.pool module namespace by a recorder that runs the
     real function on a RandomState clone which logs the noise / choice draws."""
 
-    def __init__(self):
+    def __init__(self, spy_generator=False):
         self.calls = []
         self._saved = []
+        self.spy_generator = spy_generator
+        self.generators = []
 
     def __enter__(self):
         import skactiveml.utils._selection as sel
+
+        if self.spy_generator:
+            # the per-call generator `random_state_` of the strategy becomes a logging clone in the same state
+            import skactiveml.base as B
+
+            real_crs = B.check_random_state
+            spy0 = self
+
+            def crs(random_state, seed_multiplier=None):
+                r = real_crs(random_state, seed_multiplier)
+                c = ChoiceSpyRS(0)
+                c.set_state(r.get_state())
+                spy0.generators.append(c)
+                return c
+
+            self._saved.append((B, "check_random_state", real_crs))
+            B.check_random_state = crs
 
         real = sel.simple_batch
         spy = self
@@ -157,7 +205,7 @@ def run_query(spec, data, candidates, b, seed, timeout=30):
     qs = spec.make(seed)
     kw = spec.kwargs(data, seed)
     res = dict(q=None, U=None, err=None, calls=[])
-    with SimpleBatchSpy() as spy:
+    with SimpleBatchSpy(spy_generator=spec.name in SEQ_CHOICE) as spy:
         try:
             with alarm(timeout), warnings.catch_warnings(), np.errstate(all="ignore"):
                 warnings.simplefilter("ignore")
@@ -169,6 +217,7 @@ def run_query(spec, data, candidates, b, seed, timeout=30):
             res["err"] = f"{type(e).__name__}: {str(e)[:100]}"
     res["calls"] = spy.calls
     res["ra_calls"] = spy.ra_calls
+    res["choice_calls"] = [c for g in spy.generators for c in g.choice_calls]
     res["qs"] = qs
     return res
 
@@ -349,6 +398,10 @@ def eval_case(ctx, prop, spec, case, data, cand, cs, ncols, lines, checks):
             ctx.count("skeletonA_correspondence")
     elif spec.name in SEQ_MASKED and not p1 and not shape_problem:
         seq_correspondence(ctx, spec, case, r, q, cs, ncols, lines, checks)
+    elif spec.name in SEQ_CHOICE and not p1 and not shape_problem:
+        choice_correspondence(ctx, spec, case, r, q, cs, ncols, lines, checks)
+    if spec.name in SEQ_SHRINK and not p1 and not shape_problem:
+        shrink_correspondence(ctx, spec, case, r, q, cs, ncols, lines, checks)
 
 
 # strategies whose batch loop is "mask the earlier picks with NaN, then rand_argmax" (measured on the
@@ -356,6 +409,81 @@ def eval_case(ctx, prop, spec, case, data, cand, cs, ncols, lines, checks):
 # [representativity] selects per cluster and masks afterwards, so the generic loop model does not apply to them)
 SEQ_MASKED = {"FourDs", "DiscriminativeAL", "Clue", "DropQuery", "CoreSet", "ProbCover", "GreedySamplingX",
               "RegressionTreeBasedAL[random]", "RegressionTreeBasedAL[diversity]", "TypiClust", "BatchBALD"}
+
+
+# strategies that *draw* their batch: weights, zero at the earlier picks, `random_state_.choice(p=…)`
+SEQ_CHOICE = {"Badge", "Falcun"}
+# strategies whose loop keeps the list of remaining candidates, scores exactly those and deletes the pick
+SEQ_SHRINK = {"GreedySamplingX", "GreedySamplingTarget[GSi]", "GreedySamplingTarget[GSy]"}
+
+
+def choice_correspondence(ctx, spec, case, r, q, cs, ncols, lines, checks):
+    """Badge / Falcun: the weight vectors and uniform numbers of the real `choice` calls go to the Lean `choiceseq`
+    (positions recomputed by the model of numpy's `choice`, zero discipline, `choice` preconditions).  The theorem
+    `choiceSeq_valid` turns these decidable facts into distinctness / membership / positive weight."""
+    calls = [c for c in r.get("choice_calls", []) if c["p"] is not None and len(c["inner"]) == 1 and len(c["inner"][0]) == 1
+             and np.asarray(c["out"]).size == 1]
+    if not q:
+        return
+    y = np.asarray(case["y"], dtype=float)
+    if case["mode"] == "rows":
+        space = list(range(len(cs)))
+    elif spec.cls == "Badge":
+        space = [int(c) for c in cs if np.isnan(y[int(c)])]      # Badge draws among the unlabeled candidates
+    else:
+        space = [int(c) for c in cs]
+    n_first = len(q) - len(calls)
+    if n_first not in (0, 1) or any(len(c["p"]) != len(space) for c in calls) or any(i not in space for i in q):
+        ctx.count("choice_selection_not_matched")
+        return
+    pos = [space.index(i) for i in q]
+    toks = ["choiceseq", il(pos[:n_first]), str(len(calls))]
+    for c in calls:
+        toks.append(fl(c["p"]))
+        toks.append(f2bits(c["inner"][0][0]))
+    lines.append(" ".join(toks))
+    checks.append(("weighted-draw-selection", case, "picks " + " ".join(str(p) for p in pos[n_first:]) + " | zero=1 prob=1"))
+    ctx.count("choice_correspondence")
+    ctx.count(f"choice_first_by_argmax_{n_first}")
+
+
+def shrink_correspondence(ctx, spec, case, r, q, cs, ncols, lines, checks):
+    """`_greedy_sampling`: the score vectors and noise of the real `rand_argmax` calls go to the Lean `shrinkseq`
+    (positions recomputed by the model, list shrunk by the model); theorem `shrinkSeq_valid`."""
+    calls = [c for c in r.get("ra_calls", []) if c["noise"] and len(c["noise"]) == 1 and c["a"].ndim == 1 and not c["kw"]]
+    if not q or len(q) < 2:
+        return
+    space = list(range(len(cs))) if case["mode"] == "rows" else [int(c) for c in cs]
+    # the calls of one `_greedy_sampling` run have lengths n, n-1, …; GreedySamplingTarget runs it twice (x, then y)
+    runs, cur = [], []
+    for c in calls:
+        if cur and len(c["a"]) == len(cur[-1]["a"]) - 1:
+            cur.append(c)
+        else:
+            if cur:
+                runs.append(cur)
+            cur = [c]
+    if cur:
+        runs.append(cur)
+    if sum(len(x) for x in runs) != len(q) or not runs or len(runs[0][0]["a"]) != len(space):
+        ctx.count("shrink_selection_not_matched")
+        return
+    remaining, off = list(space), 0
+    for run in runs:
+        if len(run[0]["a"]) != len(remaining):
+            ctx.count("shrink_selection_not_matched")
+            return
+        toks = ["shrinkseq", il(remaining), str(len(run))]
+        for c in run:
+            toks.append(fl(c["a"]))
+            toks.append(" ".join(f2bits(x) for x in np.asarray(c["noise"][0]).ravel()))
+        got = q[off:off + len(run)]
+        lines.append(" ".join(toks))
+        checks.append(("shrinking-list-selection", case, "picks " + " ".join(str(p) for p in got) + " | len=1"))
+        remaining = [c for c in remaining if c not in got]
+        off += len(run)
+    ctx.count("shrink_correspondence")
+    ctx.count(f"shrink_runs_{len(runs)}")
 
 
 def seq_correspondence(ctx, spec, case, r, q, cs, ncols, lines, checks):
